@@ -58,10 +58,37 @@ def convert_to_payload(dataclass_type: type, msg_id: int | None = None) -> None:
     setattr(sys.modules[dataclass_type.__module__], dataclass_type.__name__, compiled_type)
 
 
+class _FormatListBeforeConversion:
+    """
+    Stand-in for the ``format_list`` of a dataclass payload class that has not been converted yet.
+
+    A dataclass payload is converted (field introspection and ``vp_compile``) by its first instantiation. Unpacking
+    reads ``format_list`` from the class, possibly before anything was instantiated in this process, so the first
+    read has to convert the class as well. Every subclass gets its own stand-in: the ``format_list`` of a converted
+    parent class says nothing about the fields its child adds.
+    """
+
+    def __get__(self, instance: object, owner: type) -> list[FormatListType]:
+        """
+        Convert the owning class, which replaces this stand-in with the real format list.
+        """
+        if not dataclasses.is_dataclass(owner):
+            return []  # Not a dataclass (yet): nothing to convert, same as an empty Serializable.
+        convert_to_payload(owner, getattr(owner, "msg_id", None))
+        return owner.format_list  # type: ignore[attr-defined]
+
+
 class DataClassPayload(VariablePayload):
     """
     A Payload that is defined as a dataclass.
     """
+
+    def __init_subclass__(cls, **kwargs) -> None:
+        """
+        Make sure the subclass is converted before its ``format_list`` is used.
+        """
+        super().__init_subclass__(**kwargs)
+        cls.format_list = _FormatListBeforeConversion()  # type: ignore[assignment]
 
     def __class_getitem__(cls, item: int) -> DataClassPayloadWID:
         """
@@ -93,6 +120,13 @@ class DataClassPayloadWID(VariablePayloadWID):
     """
     A Payload that is defined as a dataclass and has a message id [0, 255].
     """
+
+    def __init_subclass__(cls, **kwargs) -> None:
+        """
+        Make sure the subclass is converted before its ``format_list`` is used.
+        """
+        super().__init_subclass__(**kwargs)
+        cls.format_list = _FormatListBeforeConversion()  # type: ignore[assignment]
 
     def __new__(cls, *args: Any, **kwargs) -> Self:  # noqa: ANN401, ARG004
         """
